@@ -115,6 +115,60 @@ CLAIMED = {
         "z3/cvc5 strings, A-int/A-enc axioms, serde returns bytes|str|int with 16-bit flags, integer arguments within protocol ranges.",
    technique="contract-based deductive verification: loop invariants + per-path string VCs over the real command builders (cvc5 + z3)",
    ref="5 C02"),
+ "C01": dict(
+   text="Client._misc_cmd and Client._store_cmd are executed symbolically from the real source against a ghost reply stream (the unread "
+        "stream after sendall is exactly the server's answer to this call's commands: empty with the noreply marker, else one "
+        "terminator-ended unit of arbitrary content per command; truncation/reset/timeout at any read) with loop invariants and a "
+        "cut lemma (uniqueness of the first split). Proved at every exit: Sync(client) - the socket is dropped and closed, or nothing "
+        "of the answer is unread or buffered; nothing is read with noreply; exactly one unit per command otherwise; the batch is sent "
+        "once. delete/incr/decr/touch/flush_all/delete_many: the command carries the noreply marker iff the method does not wait.",
+   note="Not yet mechanised: _fetch_cmd/_extract_value (get family, stats), the thin set/add/.../cas wrappers, HashClient wrappers. Trusted: "
+        "reader contracts (C03), _connect contract (C06), causality of the reply stream, the meta-lemma composing per-call Sync into the "
+        "sequence-level statement. Termination ('never blocks') is outside this family.",
+   technique="contract-based deductive verification: ghost reply stream, loop invariants, cut lemmas; string VCs by cvc5 + z3",
+   ref="5 C01"),
+ "C08": dict(
+   text="Monitor argument for ObjectPool, every step a sequential obligation from the real source: wf(pool) re-established by each "
+        "critical section on every exit; one lock-discipline obligation per deque access (lock held), lock released on every path; "
+        "no-duplicate obligation at every append; size check and creation in one critical section; after_remove outside the lock; the "
+        "checked-out client does not escape any PooledClient method; clear closes every object exactly once.",
+   note="ASSUMED (the one non-deductive step): the lock provides mutual exclusion, so critical sections are atomic (monitor rule). The "
+        "statement's quantifier over bytecode-level interleavings is not explored by this family; liveness is not claimed.",
+   technique="contract-based deductive verification: monitor invariant + lock-discipline obligations (z3, arrays + quantifiers)",
+   ref="5 C08"),
+ "C09": dict(
+   text="ObjectPool.get/release/destroy/clear proved against their contracts from the real source (deques of symbolic length, while/else "
+        "loop invariant in get: healthy free object reused, idle-expired ones closed once and never reused, RuntimeError only when "
+        "full). Every PooledClient method with get_and_release inlined: the slot is given back on every normal and Exception exit, a "
+        "failed client is destroyed and closed exactly once and not put in free, a swallowed failure leaves a client whose socket the "
+        "inner Client closed, a healthy client returns to free, quit always destroys.",
+   note="Trusted: deque axioms, contextmanager single-yield semantics, inner Client contract (raising exit => socket closed: C01/C06), "
+        "monotone clock. Sequential property; thread interleavings are C08's assumption.",
+   technique="contract-based deductive verification: data-structure invariant + loop invariant, inlined context manager (z3)",
+   ref="5 C09"),
+ "C10": dict(
+   text="The C01 and C09 obligations are re-generated with the exit quantifier widened to BaseException: every socket call (and the "
+        "reader/connect contracts) may additionally raise a non-Exception BaseException. Proved for _misc_cmd, _store_cmd: Sync(client) "
+        "at every such exit; for every PooledClient method: the pool slot is given back.",
+   note="Interruptions are modelled inside socket calls only (as the statement says). _fetch_cmd and HashClient wrappers not yet "
+        "mechanised. Two genuine defects were repaired (see known_findings.json: fixed).",
+   technique="contract-based deductive verification: same VCs with the exception lattice widened (cvc5 + z3)",
+   ref="5 C10"),
+ "C16": dict(
+   text="Forwarding contracts for PooledClient by symbolic execution with Python's call-binding rules against Client's current "
+        "signatures: every key-addressed method accepts every argument pack Client accepts, performs exactly one inner call of the same "
+        "method with the caller's bound arguments, returns the inner result / raises the inner exception unchanged; _create_client "
+        "forwards every shared configuration option. RetryingClient's __getattr__ forwarding is re-proved as dep:C17.",
+   note="HashClient with one server is not yet mechanised (NOT_COVERED). Trusted: call binding, pool contracts, client_class is Client.",
+   technique="contract-based deductive verification: call-binding VCs against signatures read from the AST (z3)",
+   ref="5 C16"),
+ "C07": dict(
+   text="PooledClient read methods with ignore_exc: for any Exception-class failure of the inner call the method does not raise and "
+        "returns exactly the miss value, which is computed by executing the real Client method on an empty fetch result; the slot is "
+        "returned and the failed socket closed (C09).",
+   note="Client._fetch_cmd's own ignore_exc path and HashClient's read wrappers are not yet mechanised (NOT_COVERED).",
+   technique="contract-based deductive verification: exceptional postconditions over callee contracts (z3)",
+   ref="5 C07"),
 }
 REASON_PENDING = "contracts designed (DESIGN.md section 5) but not yet mechanised; not claimed"
 
